@@ -34,3 +34,121 @@ def registry():
         notes='a formula is translated whole or rejected: the tree is returned only when the entry rule matched and no '
               'lexer token is left over; otherwise the library parser exception is raised'))
     return reg
+
+
+def registry_get():
+    """CompositeBaseToken.get: the ordered-choice parser consumes a prefix of the lexer tokens and drops nothing.
+
+    Tokens are modelled as immutable values: a lexer token is any value with a class tcls(t) and width 1; a composite token
+    is node(cls, parts) with width = sum of the widths of its parts and leaf(node, offset_j + p) = leaf(parts[j], p)."""
+    import z3
+    from pv import sorts as S
+    from pv.sorts import V, is_, ln, at
+    from pv.symexec import fresh, NotFormed, Static
+    from pv.symstmt import register_class
+    from pv.symspec import to_v, to_int
+    reg = base_registry(('Cell',))
+    register_class(reg, 'CompositeBaseToken', 'repo:tokens/composite_base_token.py:CompositeBaseToken')
+    tcls = z3.Function('tok_class', S.V, S.I)
+    width = z3.Function('tok_width', S.V, S.I)
+    leaf = z3.Function('tok_leaf', S.V, S.I, S.V)
+    node = z3.Function('tok_node', S.I, S.V, S.V)
+    pw = z3.Function('parts_width', S.V, S.I, S.I)          # width of the first k parts of a list
+    TS = z3.Function('token_sets', S.I, S.V)
+    is_lex = z3.Function('is_lexer_token', S.V, S.B)
+
+    jof = z3.Function('part_of_position', S.V, S.I, S.I)     # index of the part that covers leaf position x
+
+    def axioms():
+        c, p, k, x = z3.Int('ax_c'), z3.Const('ax_p', S.V), z3.Int('ax_k'), z3.Int('ax_x')
+        t = z3.Const('ax_t', S.V)
+        return [
+            z3.ForAll([p, k], z3.Implies(k <= 0, pw(p, k) == 0), patterns=[pw(p, k)]),
+            z3.ForAll([p, k], z3.Implies(k > 0, pw(p, k) == pw(p, k - 1) + width(at(p, k - 1))), patterns=[pw(p, k)]),
+            z3.ForAll([c, p], z3.And(tcls(node(c, p)) == c, width(node(c, p)) == pw(p, ln(p)), z3.Not(is_lex(node(c, p))),
+                                     z3.Not(is_('NoneV', node(c, p)))), patterns=[node(c, p)]),
+            # definition of the leaves of a composite token: position x lies in part jof(p, x)
+            z3.ForAll([c, p, x], leaf(node(c, p), x) == leaf(at(p, jof(p, x)), x - pw(p, jof(p, x))),
+                      patterns=[leaf(node(c, p), x)]),
+            # DECOMPOSITION lemma (LEMMA obligations C05.lemma.decomposition.*: induction on the number of parts)
+            z3.ForAll([p, x], z3.Implies(z3.And(0 <= x, x < pw(p, ln(p))),
+                                         z3.And(0 <= jof(p, x), jof(p, x) < ln(p), pw(p, jof(p, x)) <= x,
+                                                x < pw(p, jof(p, x) + 1))), patterns=[jof(p, x)]),
+            z3.ForAll([t], z3.Implies(is_lex(t), z3.And(width(t) == 1, leaf(t, 0) == t)), patterns=[is_lex(t)]),
+            z3.ForAll([t], width(t) >= 0, patterns=[width(t)]),
+        ]
+
+    def append_prefix(new, old):
+        # APPEND-PREFIX lemma (LEMMA obligations C05.lemma.append_prefix.*): pw depends only on the first k parts
+        k = z3.Int('ap_k')
+        return [z3.ForAll([k], z3.Implies(k <= ln(old), pw(new, k) == pw(old, k)), patterns=[pw(new, k)])]
+    reg.append_lemmas.append(append_prefix)
+    reg.lemma_symbols = {'pw': pw, 'width': width, 'jof': jof}
+    reg.axioms.append(axioms)
+    reg.spec('width', lambda t: width(to_v(t)), None, 'number of lexer tokens a token covers')
+    reg.spec('leaf', lambda t, p: leaf(to_v(t), to_int(p)), None, 'the p-th lexer token under a token, left to right')
+    reg.spec('pw', lambda p, k: pw(to_v(p), to_int(k)), None, 'lexer tokens covered by the first k parts')
+    reg.spec('tcls', lambda t: tcls(to_v(t)), None, 'class of a token')
+    reg.spec('is_lex', lambda t: is_lex(to_v(t)), None, 'the value is a lexer token')
+    reg.spec('cid', lambda c: S.V.cid(to_v(c)), None, 'class id')
+    reg.spec('is_cls', lambda c: is_('Cls', to_v(c)), None, 'a class value')
+    reg.spec('token_sets', lambda c: TS(S.V.cid(to_v(c))), None, 'the token sets of a composite class')
+
+    def get_token_sets(ex, st, args, kwargs, node_):
+        c = ex.need_term(args[0])
+        r = TS(V.cid(c))
+        j, i = fresh('j', S.I), fresh('i', S.I)
+        return [(st.add(is_('List', r),
+                        z3.ForAll([j], z3.Implies(z3.And(0 <= j, j < ln(r)), is_('List', at(r, j))), patterns=[at(r, j)]),
+                        z3.ForAll([j, i], z3.Implies(z3.And(0 <= j, j < ln(r), 0 <= i, i < ln(at(r, j))), is_('Cls', at(at(r, j), i))),
+                                  patterns=[at(at(r, j), i)])), r)]
+    reg.external('method:get_token_sets', get_token_sets, 'cls.get_token_sets(): the list of token sets (lists of classes) of the class')
+
+    def klass(ex, st, args, kwargs, node_):
+        o = ex.need_term(args[0])
+        return [(st, V.Cls(tcls(o)))]
+    reg.external('attr:__class__', klass, 'token.__class__: the class of a token value')
+
+    def placeholder(ex, st, args, kwargs, node_):
+        raise NotFormed('placeholder')
+    reg.external('ControlConstructionCompositeBaseToken', placeholder, 'only referenced inside the abstracted set comprehension')
+    reg.external('CompositeBaseToken', placeholder, 'class object')
+
+    def subclasses(ex, st, args, kwargs, node_):
+        L = V.List(fresh('subclasses', S.I))
+        return [(st, L)]
+    reg.external('CompositeBaseToken.subclasses', subclasses, 'CompositeBaseToken.subclasses(): some list of classes (membership unconstrained)')
+
+    def construct_node(ex, st, args, kwargs, node_):
+        c, parts = ex.need_term(args[0]), ex.need_term(args[1])
+        return [(st, node(V.cid(c), parts))]
+    reg.external('construct:cls', construct_node, 'cls(parts, in_cell): the composite token of class cls over these parts')
+
+    EXPR = ('all(is_lex(expression[i]) and not is_none(expression[i]) for i in range(len(expression)))')
+    SUFFIX = ('len({rest}) == len(expression) - {c} and all({rest}[q] == expression[{c} + q] for q in range(len({rest})))')
+    post = ('(is_none(result[0]) and result[1] == expression) or '
+            '(not is_none(result[0]) and width(result[0]) >= 1 and width(result[0]) <= len(expression) and '
+            'is_list(result[1]) and ' + SUFFIX.format(rest='result[1]', c='width(result[0])') + ' and '
+            'all(leaf(result[0], p) == expression[p] for p in range(width(result[0]))))')
+    reg.add(Contract(
+        'CompositeBaseToken.get', 'repo:tokens/composite_base_token.py:CompositeBaseToken.get',
+        {'cls': 'cls', 'expression': 'list', 'in_cell': 'V'}, self_class='CompositeBaseToken',
+        requires=[EXPR],
+        ensures={'is_pair': 'is_tuple(result) and len(result) == 2',
+                 'consumed_prefix': post},
+        free_exceptions=['E2PyclParserException'],
+        invariants={
+            0: {'flag': 'is_bool(control_construction_flag)'},
+            1: {'part': 'is_list(new_expression_part) and len(new_expression_part) == k1 and is_list(_expression) and '
+                        'is_bool(control_construction_flag) and is_list(tokens)',
+                'consumed': 'pw(new_expression_part, k1) >= k1 and pw(new_expression_part, k1) <= len(expression) and ' +
+                            SUFFIX.format(rest='_expression', c='pw(new_expression_part, k1)'),
+                'parts_nonempty': 'all(not is_none(new_expression_part[j]) and width(new_expression_part[j]) >= 1 for j in range(k1))',
+                'leaves_in_order': 'all(all(leaf(new_expression_part[j], q) == expression[pw(new_expression_part, j) + q] '
+                                   'for q in range(width(new_expression_part[j]))) for j in range(k1))'},
+        },
+        notes='either (None, the untouched expression) or (token, rest) where rest is exactly the suffix of the expression after '
+              'the width(token) >= 1 lexer tokens that the token covers, and the leaves of the token are those tokens in order: '
+              'nothing is dropped, duplicated or reordered. The recursive call uses this contract as induction hypothesis '
+              '(partial correctness; termination: C05.Grammar.no_left_recursion).'))
+    return reg
